@@ -420,6 +420,7 @@ pub fn check(prop: &str, tier: &str) -> i32 {
         t
     });
     let mut long_strings = 0u64;
+    let mut large_cases = 0u64;
     for t in long_results {
         long_strings += t.strings;
         accepted += t.accepted;
@@ -429,6 +430,34 @@ pub fn check(prop: &str, tier: &str) -> i32 {
     for p in panics.iter().take(3) {
         if !run.violations.iter().any(|_| false) && run.violations.len() < 5 {
             run.report(None, "C15.a", &format!("AccessPolicy::parse panics on {p:?}"), json!({"engine": "parsex", "input": p}));
+        }
+    }
+
+    // (i'') large but regular valid policies: many operands, deep nesting, long names
+    {
+        let long_name = "N".repeat(300);
+        let mut cases: Vec<(String, usize, usize)> = vec![]; // (text, expected clauses, expected attributes per clause)
+        for n in [2usize, 50, 129, 300] {
+            cases.push(((0..n).map(|i| format!("D::a{i}")).collect::<Vec<_>>().join(" || "), n, 1));
+            cases.push(((0..n).map(|i| format!("D{i}::a")).collect::<Vec<_>>().join(" && "), 1, n));
+        }
+        for depth in [1usize, 40, 200] {
+            cases.push((format!("{}D::a && E::b{}", "(".repeat(depth), ")".repeat(depth)), 1, 2));
+        }
+        cases.push((format!("{long_name}::{long_name} && D::a"), 1, 2));
+        cases.push(((0..12).map(|i| format!("(X{i}::a || Y{i}::b)")).collect::<Vec<_>>().join(" && "), 4096, 12));
+        for (text, clauses, per) in cases {
+            large_cases += 1;
+            match try_parse(&text) {
+                Err(()) => run.report(None, "C15.a", &format!("AccessPolicy::parse panics on a {}-byte regular policy starting with {:?}", text.len(), &text[..40.min(text.len())]), json!({"engine": "parsex", "input": text})),
+                Ok(None) => run.report(None, "C15.b", &format!("a {}-byte policy of the documented grammar starting with {:?} is rejected", text.len(), &text[..40.min(text.len())]), json!({"engine": "parsex", "input": text})),
+                Ok(Some(p)) => {
+                    let dnf = p.to_dnf();
+                    if dnf.len() != clauses || dnf.iter().any(|c| c.len() != per) {
+                        run.report(None, "C15.d", &format!("the DNF of a regular policy starting with {:?} has {} clauses (expected {clauses}) of sizes other than {per}", &text[..40.min(text.len())], dnf.len()), json!({"engine": "parsex", "input": text}));
+                    }
+                }
+            }
         }
     }
 
@@ -469,6 +498,7 @@ pub fn check(prop: &str, tier: &str) -> i32 {
     }
     run.set("evaluations", json!(strings + wide_strings + long_strings + printed));
     run.set("long_strings_enumerated", json!(long_strings));
+    run.set("large_regular_policies", json!(large_cases));
     run.set("distinct_nontrivial", json!(accepted + printed));
     run.set("rule", json!(format!("(i) every string of length <= {len} over the 10 symbols ( ) & | : space * a b é (é is 2 bytes), plus every string of length <= {wide_len} over the same symbols extended with a 3-byte and a 4-byte character, is parsed under catch_unwind and expanded to DNF when accepted; (i') every string of length <= 3 over the 10 symbols embedded in 5 templates with fillers of 0..36 (thorough 70) repetitions of a 1-, 2-, 3- and 4-byte character (a multi-byte character at every byte offset of long valid and invalid expressions); (ii) every boolean formula with <= {n} leaves over 4 attributes (one with a multi-byte dimension and a name containing a blank), every tree shape and operator assignment, printed in 5 styles (minimal, spaced, parenthesised everywhere, doubly parenthesised, padded) is parsed and compared with a reference reader (grouping first, AND before OR) on all 16 truth assignments, for the tree and for its DNF, and on attribute names. distinct_nontrivial = accepted strings + printed formulas")));
     run.set("strings_enumerated", json!(strings));
